@@ -174,8 +174,14 @@ class AirTouchSocket(Generic[comms.Hdr]):
     async def close(self) -> None:
         """Close the socket to the AirTouch."""
         if self.is_open:
-            await self._disconnect()
             self.is_open = False
+            # Stop delayed connection attempts and the read loop so that
+            # nothing acts on the socket after it has been closed.
+            current_task = asyncio.current_task()
+            for task in list(self._background_tasks):
+                if task is not current_task:
+                    task.cancel()
+            await self._disconnect()
 
     async def send(self, message: comms.Message, retry_policy: RetryPolicy) -> None:
         """Send a message to the AirTouch.
@@ -293,8 +299,8 @@ class AirTouchSocket(Generic[comms.Hdr]):
         task.add_done_callback(discard_task)
 
     async def _connect(self) -> None:
-        if self.is_connected or self._connecting:
-            _LOGGER.debug("_connect ignored. Already connected or connecting")
+        if self.is_connected or self._connecting or not self.is_open:
+            _LOGGER.debug("_connect ignored. Closed, already connected or connecting")
             return
         self._connecting = True
 
